@@ -299,6 +299,66 @@ Theorem C16_notify_exact_of_source : forall tb dead slots n t s,
 Proof. exact src_mesa_notify_spec. Qed.
 Print Assumptions C16_notify_exact_of_source.
 
+(* the six mutators SignalingList inherits are the programs TRANSLATED from collections.abc.MutableSequence of the
+   running interpreter (stdlib source checked against the running bytecode), run over SignalingList's own translated
+   __getitem__ / __setitem__ / __delitem__ / append: the model's pop / remove / extend / extend(self) / += / reverse /
+   clear - data, returned value and the whole signal sequence - are derived, not assumed *)
+Theorem C16_source_stdlib_glue : gen_ms_glue_ok = true /\ gen_ms_pop_default = -1.
+Proof. split; reflexivity. Qed.
+Print Assumptions C16_source_stdlib_glue.
+
+Theorem C16_source_derived_code_is_model : forall tb d,
+  (forall i, list_op tb d (LPop (Some i)) = lres_of_q (src_pop tb (d, []) i)) /\
+  (list_op tb d (LPop None) = lres_of_q (src_pop tb (d, []) gen_ms_pop_default)) /\
+  (forall v, list_op tb d (LRemove v) = lres_of_q (src_remove tb (d, []) v)) /\
+  (forall vs, list_op tb d (LExtend vs) = lres_of_q (src_extend tb (d, []) vs false)) /\
+  (forall vs, list_op tb d LExtendSelf = lres_of_q (src_extend tb (d, []) vs true)) /\
+  (forall vs, l_extend tb d vs = lres_of_q (src_iadd tb (d, []) vs false)) /\
+  (list_op tb d LReverse = lres_of_q (src_reverse tb (d, []))) /\
+  (list_op tb d LClear = lres_of_q (src_clear_list tb (S (length d)) (d, []))).
+Proof.
+  intros tb d.
+  exact (conj (pop_bridge tb d) (conj (pop_bridge tb d (-1)) (conj (remove_bridge tb d) (conj (extend_bridge tb d)
+        (conj (extend_self_bridge tb d) (conj (iadd_bridge tb d) (conj (reverse_bridge tb d) (clear_bridge_list tb d)))))))).
+Qed.
+Print Assumptions C16_source_derived_code_is_model.
+
+(* hence the translated stdlib reverse, run over the translated SignalingList methods, reverses the list *)
+Theorem C16_reverse_reverses_of_source : forall tb d,
+  match src_reverse tb (d, []) with inl ((d', _), _) => d' = rev d | inr _ => False end.
+Proof.
+  intros tb d. pose proof (reverse_bridge tb d) as B. pose proof (reverse_spec tb d) as R.
+  destruct (src_reverse tb (d, [])) as [[[d' es] [v|]]|k]; cbn [lres_of_q] in B.
+  - exact (R _ _ _ B).
+  - exact (R _ _ _ B).
+  - unfold l_reverse in B. destruct (reverse_loop tb (Z.to_nat (zlen d / 2)) 0 d []). discriminate.
+Qed.
+Print Assumptions C16_reverse_reverses_of_source.
+
+(* ------------------------------------------------------------------ re-entrancy (outside the property's quantifier)
+   handlers that call observe / unobserve on the (name, type) being notified.  Stated precisely, for the model
+   notify_re that the correspondence runs against the implementation (the oracle demands nothing here):
+   the list left in the registry after one notification is exactly the handlers called in that round, in call order *)
+Theorem C16_reentrant_registry_is_called : forall sc reg calls reg',
+  round_re sc reg = Some (calls, reg') -> reg' = calls.
+Proof. exact round_re_registry. Qed.
+Print Assumptions C16_reentrant_registry_is_called.
+
+(* so C16_unobserve_silences does NOT extend to an unobserve() made by a handler during the notification: the full
+   statement "after unobserve(n, t, h) - wherever it is called from - h receives nothing more" is refuted: handler 1
+   unobserves handler 2 while ("x","change") is being delivered; 2 is still called in that round, is still in the
+   registry afterwards and is called again in the next round *)
+Theorem C16_unobserve_silences_reentrant_refuted :
+  exists sc reg, script_get sc 1 = HUnobserve 2 /\
+    run_rounds sc 2 reg = [[1; 2; -7; 1; 2]; [1; 2; -7; 1; 2]].
+Proof. exists [(1, HUnobserve 2)], [1; 2]. vm_compute. split; reflexivity. Qed.
+Print Assumptions C16_unobserve_silences_reentrant_refuted.
+
+(* a handler subscribed by another handler during the round is reached by the same loop (called in that round) *)
+Example C16_example_reentrant_observe :
+  run_rounds [(1, HObserve 3)] 2 [1; 2] = [[1; 2; 3; -7; 1; 2; 3]; [1; 2; 3; 3; -7; 1; 2; 3; 3]].
+Proof. vm_compute. reflexivity. Qed.
+
 (* ------------------------------------------------------------------ non-vacuity *)
 Definition ex_case : case :=
   {| c_mro := [[(0, EObs (Some 3))]; [(1, EList)]]; c_vals := [[SObs None None; SList (Some [1; 2; 3])]];
@@ -383,3 +443,14 @@ Example C16_example_source :
   src_delitem [1; 2; 3] (IInt (-1)) = inl ([1; 2], (3, VInt 3, VNone, IInt (-1))) /\
   src_setitem [1; 2; 3] (IInt 5) (VInt 0) = inr (4, [1; 2; 3]).
 Proof. vm_compute. repeat split; reflexivity. Qed.
+(* the translated stdlib programs run: reverse of [1;2;3] through the translated __setitem__, clear through pop() *)
+Example C16_example_stdlib :
+  src_reverse gen_sig_tables ([1; 2; 3], []) =
+    inl (([3; 2; 1], [{| e_type := 2; e_old := VInt 1; e_new := VInt 3; e_index := IInt 0 |};
+                      {| e_type := 2; e_old := VInt 3; e_new := VInt 1; e_index := IInt 2 |}]), None) /\
+  src_pop gen_sig_tables ([5; 6], []) gen_ms_pop_default =
+    inl (([5], [{| e_type := 3; e_old := VInt 6; e_new := VNone; e_index := IInt (-1) |}]), Some 6) /\
+  src_remove gen_sig_tables ([5; 6], []) 7 = inr 5 /\
+  (exists es, src_clear_list gen_sig_tables 3 ([5; 6], []) = inl (([], es), None) /\ length es = 2%nat) /\
+  (exists es, src_extend gen_sig_tables ([1; 2], []) [9] true = inl (([1; 2; 1; 2], es), None)).
+Proof. vm_compute. repeat split; try reflexivity; eexists; split; reflexivity || reflexivity. Qed.
